@@ -22,6 +22,7 @@ class Tr:
         self.sorts = {}
         self.consts = {}
         self.nat_vars = []
+        self.fresh = 0
 
     def sort(self, T):
         if T == BoolType:
@@ -78,10 +79,18 @@ class Tr:
             if t.T.is_fun():
                 raise Outside('function constant as a value')
             return self.atom(t)
+        if t.is_forall() or t.is_exists():
+            from kernel.term import Var
+            ab = t.arg
+            if not ab.is_abs() or ab.var_T.is_fun() or ab.var_T == NatType:
+                raise Outside('quantifier over functions / naturals')
+            self.fresh += 1
+            v = Var('%s__q%d' % (ab.var_name, self.fresh), ab.var_T)
+            zv = self.atom(v)
+            body = self.tr(ab.subst_bound(v))
+            return z3.ForAll([zv], body) if t.is_forall() else z3.Exists([zv], body)
         if t.is_abs() or t.is_bound() or t.is_svar():
             raise Outside('binder')
-        if t.is_forall() or t.is_exists():
-            raise Outside('quantifier')
         if t.is_not():
             return z3.Not(self.tr(t.arg))
         if t.is_conj():
